@@ -55,6 +55,10 @@ func NamedVariant(t reflect.Type) reflect.Type {
 	return t
 }
 
+// Void is a declared empty struct type; NSet a declared set type.
+type Void struct{}
+type NSet map[string]struct{}
+
 // TTUp / TTUv expose the two text-unmarshalable palette types.
 func TTUp() reflect.Type { return tTUp }
 func TTUv() reflect.Type { return tTUv }
@@ -75,6 +79,7 @@ type XOpts struct {
 	Arrays             bool
 	UserPtrs           bool
 	Unexported         bool // unexported fields (raw types only make sense with them)
+	OddNames           bool // some field names start with a non-ASCII upper-case letter
 	OddTagValues       bool // tag values with quotes, backslashes, blanks, colons, backticks, non-ASCII
 	ForceElemEmbed     bool // the first top-level field is a slice/array of structs whose element embeds a pointer to a struct
 	ElemNested         bool // element structs of slices/arrays/maps may contain struct, *struct and embedded struct fields
@@ -111,8 +116,14 @@ func (g *XGen) name() string {
 		return n
 	}
 	g.next++
+	if g.O.OddNames && g.R.Chance(1, 8) {
+		// exported by a NON-ASCII upper-case first letter (rest ASCII)
+		return upperX[g.R.Intn(len(upperX))] + fmt.Sprintf("f%d", g.next)
+	}
 	return fmt.Sprintf("F%d", g.next)
 }
+
+var upperX = []string{"Ä", "Ö", "Ü", "É", "Đ", "Ω", "Ж"}
 
 var xbasics = []reflect.Type{
 	reflect.TypeOf(false), reflect.TypeOf(int(0)), reflect.TypeOf(int8(0)), reflect.TypeOf(int16(0)),
@@ -169,6 +180,12 @@ func (g *XGen) leaf() reflect.Type {
 				}
 				if r.Chance(1, 2) {
 					k = reflect.TypeOf("")
+				}
+				switch r.Intn(6) {
+				case 0: // the element type is a DECLARED empty struct: not a set for the set-slice mangler
+					return reflect.MapOf(k, reflect.TypeOf(Void{}))
+				case 1: // a declared set type
+					return reflect.TypeOf(NSet(nil))
 				}
 				return reflect.MapOf(k, reflect.TypeOf(struct{}{}))
 			}
